@@ -379,9 +379,17 @@ class NumpyStub:
                 continue
             n = a.shape[ax]
             if isinstance(x, slice):
-                sl = I.concrete_slice(x) if not any(isinstance(raw(c), Sym) for c in (x.start, x.stop, x.step)) else None
-                if sl is None:
-                    sl = self.sym_slice(x, n)
+                symb = any(isinstance(raw(c), Sym) and isinstance(raw(concretize(raw(c))), Sym) for c in (x.start, x.stop, x.step))
+                if symb:
+                    w = self.sym_slice_1d(Arr.from_list([0] * n, (n,), a.dtype), x)
+                    if not isinstance(w, tuple):
+                        raise Untranslatable("slice with symbolic bounds (not a window of concrete length) on an n-d array")
+                    per_axis.append(("win", w[1], w[2]))
+                    sym_axes.append(ax)
+                    layout.append(("ax", ax))
+                    ax += 1
+                    continue
+                sl = I.concrete_slice(x)
                 rng = list(range(*sl.indices(n)))
                 per_axis.append(("range", rng))
                 layout.append(("ax", ax))
@@ -414,7 +422,8 @@ class NumpyStub:
             if l[0] == "new":
                 shape.append(1)
             else:
-                shape.append(len(per_axis[l[1]][1]))
+                p_ = per_axis[l[1]]
+                shape.append(p_[2] if p_[0] == "win" else len(p_[1]))
         if not sym_axes:
             ranges = [([p[1]] if p[0] == "int" else p[1]) for p in per_axis]
             pos = [a.pos[a.flat_index(ix)] for ix in itertools.product(*ranges)]
@@ -424,21 +433,25 @@ class NumpyStub:
             v.writeable = a.writeable
             return v
         # symbolic integer index: result is a *copy-valued* read (ite chain); exact for reads
-        ranges = []
+        out = []
+        free = []
         for p in per_axis:
             if p[0] == "int":
-                ranges.append([p[1]])
+                free.append([("c", p[1])])
             elif p[0] == "range":
-                ranges.append(p[1])
+                free.append([("c", v) for v in p[1]])
+            elif p[0] == "win":
+                free.append([("s", z3.simplify(p[1] + j)) for j in range(p[2])])
             else:
-                ranges.append(None)
-        out = []
-        free = [r if r is not None else [None] for r in ranges]
-        for ix in itertools.product(*free):
-            out.append(self.sym_read(a, list(ix), per_axis))
+                free.append([("s", p[1])])
+        combos = list(itertools.product(*free))
+        for combo in combos:
+            ix = [v if k == "c" else None for k, v in combo]
+            pa = [None if k == "c" else ("sym", v) for k, v in combo]
+            out.append(self.sym_read(a, ix, pa))
         if not shape:
             return elem_scalar(out[0], a.dtype)
-        sv = SymView(self, a, per_axis, shape, out)
+        sv = SymView(self, a, per_axis, shape, out, combos)
         return sv if for_write else sv.to_arr()
 
     def sym_read(self, a, ix, per_axis):
@@ -1763,12 +1776,13 @@ class SymView:
     """Result of basic indexing with a symbolic integer on some axis, when the result is still an array
     (e.g. a[k, :]).  Reads are ite chains; `assign` writes through to the base."""
 
-    def __init__(self, np_, base, per_axis, shape, elems):
+    def __init__(self, np_, base, per_axis, shape, elems, combos=None):
         self.np = np_
         self.base = base
         self.per_axis = per_axis
         self.shape = tuple(shape)
         self._elems = elems
+        self.combos = combos
 
     def to_arr(self):
         return Arr.from_list(self._elems, self.shape, self.base.dtype)
@@ -1776,6 +1790,15 @@ class SymView:
     def assign(self, v):
         a = self.base
         per = self.per_axis
+        if self.combos is not None:
+            if isinstance(v, (Arr, list, tuple)):
+                vals = self.np.bcast_elems(self.np.as_arr(v), self.shape)
+            else:
+                vals = [raw(v)] * _prod(self.shape)
+            for combo, x in zip(self.combos, vals):
+                per2 = [("int", val) if k == "c" else ("sym", val) for k, val in combo]
+                self.np.sym_write(a, per2, cast_elem(x, a.dtype))
+            return
         free_axes = [k for k, p in enumerate(per) if p[0] == "range"]
         if isinstance(v, (Arr, list, tuple)):
             va = self.np.as_arr(v)
